@@ -22,8 +22,42 @@ static HEAD_LEN: AtomicUsize = AtomicUsize::new(0);
 static mut LINE: [u8; 512] = [0; 512];
 static LINE_LEN: AtomicUsize = AtomicUsize::new(0);
 
+thread_local! {
+    /// per-thread case description (checks whose cases run on worker threads)
+    static TL: std::cell::Cell<(*mut u8, usize)> = const { std::cell::Cell::new((std::ptr::null_mut(), 0)) };
+}
+
+/// like `set_current`, for the calling thread only
+pub fn set_current_tl(json: &str) {
+    TL.with(|c| {
+        let (mut p, _) = c.get();
+        if p.is_null() {
+            p = Box::leak(vec![0u8; CAP].into_boxed_slice()).as_mut_ptr();
+        }
+        let n = json.len().min(CAP);
+        unsafe { std::ptr::copy_nonoverlapping(json.as_ptr(), p, n) };
+        c.set((p, if json.len() <= CAP { n } else { 0 }));
+    })
+}
+
+pub fn clear_tl() {
+    TL.with(|c| c.set((c.get().0, 0)))
+}
+
 extern "C" fn on_crash(_: i32) {
     unsafe {
+        let (tp, tn) = TL.try_with(|c| c.get()).unwrap_or((std::ptr::null_mut(), 0));
+        if tn > 0 {
+            let fd = open(std::ptr::addr_of!(PATH) as *const u8, 0o1 | 0o100 | 0o1000, 0o644);
+            if fd >= 0 {
+                write(fd, std::ptr::addr_of!(HEAD) as *const u8, HEAD_LEN.load(Ordering::Relaxed));
+                write(fd, tp, tn);
+                write(fd, b"}\n".as_ptr(), 2);
+                close(fd);
+            }
+            write(1, std::ptr::addr_of!(LINE) as *const u8, LINE_LEN.load(Ordering::Relaxed));
+            _exit(1);
+        }
         let n = CUR_LEN.load(Ordering::Relaxed);
         if n > 0 {
             // O_WRONLY | O_CREAT | O_TRUNC
